@@ -9,6 +9,7 @@ import (
 	"sort"
 	"strings"
 	"sync"
+	"sync/atomic"
 	"testing"
 	"time"
 
@@ -387,6 +388,9 @@ func runServerRT(t *testing.T, seed int64, log *traceLog) {
 	close(stop)
 	pump.Wait()
 	hammerWhy := hammer(w, seed)
+	if hammerWhy == "" {
+		hammerWhy = tcpHammer(w, seed)
+	}
 	names := append([]string{}, meta.Clients...)
 	sort.Strings(names)
 	for _, c := range names {
@@ -482,6 +486,123 @@ func hammer(w *World, seed int64) string {
 	}
 
 	return ""
+}
+
+// tcpHammer: four parties on the stream listener hold TCP allocations (RFC 6062) with a permission for one peer; that
+// peer keeps dialling each relayed address while its party deletes the allocation (Refresh 0), allocates again and
+// installs the permission again, sixty times.  Inbound peer connections (relay accept loop: permission table, then
+// the manager's connection table) thereby keep meeting allocation deletions (manager, then the allocation's tables).
+// Every request must be answered; returns "" or what went wrong.
+func tcpHammer(w *World, seed int64) string {
+	const parties, cycles = 4, 60
+	var peerIP net.IP
+	for _, ip := range w.peerIP {
+		if ip.To4() != nil && (peerIP == nil || ip.String() < peerIP.String()) {
+			peerIP = ip
+		}
+	}
+	fail := make(chan string, parties)
+	var wg sync.WaitGroup
+	for i := 0; i < parties; i++ {
+		i := i
+		st, err := w.Net.DialTCP(&net.TCPAddr{IP: net.IPv4(10, 0, 0, 14).To4(), Port: 42000 + i}, &net.TCPAddr{IP: w.listenAddr["s1"].IP, Port: w.listenAddr["s1"].Port})
+		if err != nil {
+			return "tcp hammer: " + err.Error()
+		}
+		defer st.Close() //nolint:errcheck
+		var relay atomic.Pointer[net.TCPAddr]
+		stop := make(chan struct{})
+		go func() { // the peer: dial the current relayed address again and again
+			n := 0
+			for {
+				select {
+				case <-stop:
+					return
+				default:
+				}
+				if ra := relay.Load(); ra != nil {
+					n++
+					if c, err := w.Net.DialTCP(&net.TCPAddr{IP: peerIP, Port: 20000 + i*1000 + n%900}, ra); err == nil {
+						_ = c.Close()
+					}
+				}
+				time.Sleep(50 * time.Microsecond)
+			}
+		}()
+		wg.Add(1)
+		go func() {
+			defer wg.Done()
+			defer close(stop)
+			rest := []byte{}
+			buf := make([]byte, 65536)
+			k := 0
+			// one request, its answer (indications that arrive meanwhile are skipped)
+			ask := func(raw []byte, id [stun.TransactionIDSize]byte) *stun.Message {
+				_, _ = st.Write(raw)
+				deadline := time.Now().Add(20 * time.Second)
+				for time.Now().Before(deadline) {
+					for len(rest) >= 20 {
+						l := 20 + int(rest[2])<<8 + int(rest[3])
+						if len(rest) < l {
+							break
+						}
+						m := &stun.Message{Raw: append([]byte{}, rest[:l]...)}
+						rest = rest[l:]
+						if m.Decode() == nil && m.TransactionID == id {
+							return m
+						}
+					}
+					_ = st.SetReadDeadline(time.Now().Add(200 * time.Millisecond))
+					if n, err := st.Read(buf); err == nil {
+						rest = append(rest, buf[:n]...)
+					}
+				}
+
+				return nil
+			}
+			tid := func() (t [stun.TransactionIDSize]byte) {
+				k++
+				h := sha256.Sum256([]byte(fmt.Sprintf("tcphammer/%d/%d/%d", seed, i, k)))
+				copy(t[:], h[:])
+
+				return t
+			}
+			for c := 0; c < cycles; c++ {
+				id := tid()
+				m := ask(w.authed("u1", id, stun.MethodAllocate, proto.RequestedTransport{Protocol: proto.ProtoTCP}), id)
+				if m == nil {
+					fail <- fmt.Sprintf("tcp hammer: party %d got no answer to Allocate (cycle %d): the server is wedged", i, c)
+
+					return
+				}
+				var ra proto.RelayedAddress
+				if ra.GetFrom(m) == nil {
+					relay.Store(&net.TCPAddr{IP: ra.IP, Port: ra.Port})
+				}
+				id = tid()
+				if ask(w.authed("u1", id, stun.MethodCreatePermission, proto.PeerAddress{IP: peerIP, Port: 20000}), id) == nil {
+					fail <- fmt.Sprintf("tcp hammer: party %d got no answer to CreatePermission (cycle %d): the server is wedged", i, c)
+
+					return
+				}
+				time.Sleep(time.Duration(200+50*i) * time.Microsecond) // peer connections arrive
+				id = tid()
+				if ask(w.authed("u1", id, stun.MethodRefresh, proto.Lifetime{}), id) == nil {
+					fail <- fmt.Sprintf("tcp hammer: party %d got no answer to Refresh 0 (cycle %d): the server is wedged", i, c)
+
+					return
+				}
+				relay.Store(nil)
+			}
+		}()
+	}
+	wg.Wait()
+	select {
+	case why := <-fail:
+		return why
+	default:
+		return ""
+	}
 }
 
 // decodeAtClientRT is decodeAtClient with the payload identified through the router (many operations are in flight).
